@@ -363,6 +363,10 @@ func runC12Random(c *core.Ctx) {
 		t := dyn.Types[typeIDs[rnd.Intn(len(typeIDs))]]
 		ch := rnd.Range(1, 8)
 		k := rnd.Range(1, 64)
+		if si%25 == 24 {
+			k = rnd.Range(260, 600) // more than 256 frames
+			ch = 1 + ch%3
+		}
 		l := rnd.Range(0, k)
 		cw := newC12World(t, ch, l, k)
 		steps := rnd.Range(50, 200)
